@@ -5,12 +5,16 @@
 //! Ops: `enc_new prod|<maxInit> <maxSub>`, `dec_new …`, `feed b|c|a <payload>`,
 //! `drain_all`, `drain_slices k`, `drain_bytes k`, `finish`.
 //! `<payload>` = hex or `gen:<len>:<seed>:<density>`.
+//! Public-API completion (track apigaps): `enc_default` / `dec_default` (`Default`),
+//! `enc_from <prefill> <limits>` / `dec_from ...` (`new_from_iovec` on an iovec that already holds
+//! bytes: the codec's output goes AFTER them), `feed sb|sc <payload>` (`ZeroCopySink for Encoder`
+//! through `&mut dyn ZeroCopySink`), `take_iovec` (`Decoder::take_iovec`).
 use crate::fam_iovec::fnv64;
 use crate::fam_readn::{kind_index, oracle_c17, parse_script, Call, ScriptedReader};
 use crate::util::*;
 use hcobs::verif::{VerifDecoder, VerifEncoder};
 use hcobs::{Decoder, DecodingError, Encoder};
-use owning_iovec::{ByteArena, ConsumingIovec, OwningIovec};
+use owning_iovec::{ByteArena, ConsumingIovec, OwningIovec, ZeroCopySink};
 use std::io::IoSlice;
 use std::num::NonZeroUsize;
 
@@ -89,6 +93,8 @@ pub(crate) struct CodecWExec {
     pub(crate) logical_input: Vec<u8>,
     /// everything drained so far
     pub(crate) drained: Vec<u8>,
+    /// what the iovec handed to `new_from_iovec` already held
+    pub(crate) prefill: Vec<u8>,
     /// a feed has not been followed by `drain_all` yet
     undrained: bool,
     /// every feed so far was followed by `drain_all` before the next one (the streaming regime of C10)
@@ -147,7 +153,9 @@ impl CodecWExec {
             e.encode_copy(&self.logical_input);
             e.finish().flatten().unwrap_or_default()
         };
-        if all != reference {
+        let mut want = self.prefill.clone();
+        want.extend_from_slice(&reference);
+        if all != want {
             so.violations.push(
                 "C17 encoder output (drained ++ final) differs from a one-call encoding of the payloads plus the bytes the readers delivered".into(),
             );
@@ -256,6 +264,53 @@ impl Exec for CodecWExec {
     fn step(&mut self, w: &[&str]) -> StepOut {
         let mut so = StepOut::default();
         match w {
+            ["enc_default"] => {
+                self.is_enc = true;
+                self.limits = (PROD_INIT, PROD_SUB);
+                self.codec = Codec::Enc(Encoder::default());
+            }
+            ["dec_default"] => {
+                self.is_enc = false;
+                self.limits = (PROD_INIT, PROD_SUB);
+                self.codec = Codec::Dec(Decoder::default());
+            }
+            [op @ ("enc_from" | "dec_from"), prefill, rest @ ..] => {
+                let (Some(pre), Some(lim)) = (from_hex(prefill), parse_limits(rest)) else { return StepOut::bad() };
+                self.is_enc = *op == "enc_from";
+                self.prefill = pre.clone();
+                let mut iov = OwningIovec::new();
+                let s = self.add_buf(pre);
+                iov.push(s);
+                self.limits = lim.unwrap_or((PROD_INIT, PROD_SUB));
+                self.codec = match (self.is_enc, lim) {
+                    (true, None) => Codec::Enc(Encoder::new_from_iovec(iov)),
+                    (true, Some((a, b))) => {
+                        let Some(e) = VerifEncoder::new_from_iovec(iov, a, b) else { return StepOut::bad() };
+                        Codec::VEnc(e)
+                    }
+                    (false, None) => Codec::Dec(Decoder::new_from_iovec(iov)),
+                    (false, Some((a, b))) => {
+                        let Some(d) = VerifDecoder::new_from_iovec(iov, a, b) else { return StepOut::bad() };
+                        Codec::VDec(d)
+                    }
+                };
+            }
+            ["take_iovec"] => {
+                if self.failed {
+                    return StepOut::bad();
+                }
+                let old = std::mem::replace(&mut self.codec, Codec::None);
+                self.codec = match old {
+                    Codec::Dec(d) => {
+                        so.obs.push("R ok".into());
+                        Codec::Done(d.take_iovec())
+                    }
+                    other => {
+                        self.codec = other;
+                        return StepOut::bad();
+                    }
+                };
+            }
             ["enc_new", rest @ ..] => {
                 let Some(lim) = parse_limits(rest) else { return StepOut::bad() };
                 self.is_enc = true;
@@ -291,6 +346,9 @@ impl Exec for CodecWExec {
                     return StepOut::bad();
                 }
                 let Some(bytes) = parse_payload(payload) else { return StepOut::bad() };
+                if matches!(*m, "sb" | "sc") && !matches!(self.codec, Codec::Enc(_)) {
+                    return StepOut::bad();
+                }
                 self.fed += bytes.len();
                 if self.undrained {
                     self.streaming = false;
@@ -300,6 +358,22 @@ impl Exec for CodecWExec {
                 let att = NonZeroUsize::new(4).unwrap();
                 let n = bytes.len();
                 let res: Option<Result<(), DecodingError>> = match *m {
+                    // `ZeroCopySink for hcobs::Encoder`, called through a trait object
+                    "sb" | "sc" => {
+                        let s = if *m == "sb" { self.add_buf(bytes) } else { unsafe { std::slice::from_raw_parts(bytes.as_ptr(), bytes.len()) } };
+                        match &mut self.codec {
+                            Codec::Enc(e) => {
+                                let d: &mut dyn ZeroCopySink<'static> = e;
+                                if *m == "sb" {
+                                    d.append_borrow(s)
+                                } else {
+                                    d.append_copy(s)
+                                }
+                                None
+                            }
+                            _ => return StepOut::bad(),
+                        }
+                    }
                     "b" => {
                         let s = self.add_buf(bytes);
                         match &mut self.codec {
@@ -633,6 +707,7 @@ impl Family for CodecWFamily {
             fed: 0,
             logical_input: vec![],
             drained: vec![],
+            prefill: vec![],
             undrained: false,
             streaming: true,
         })
@@ -707,8 +782,18 @@ impl Family for CodecWFamily {
             ops.push("drain_bytes 10".into());
             return ops;
         }
+        // (track apigaps) constructors: `new`, `Default`, `new_from_iovec` on an iovec that already holds bytes
+        let prefill = |rng: &mut Rng| {
+            let n = *rng.pick(&[0usize, 1, 3, 64, 65, 300]);
+            to_hex(&(0..n).map(|k| 0xA0u8.wrapping_add(k as u8)).collect::<Vec<u8>>())
+        };
+        let ctor = |rng: &mut Rng, what: &str| match rng.below(6) {
+            0 => format!("{}_from {} {}", what, prefill(rng), lim),
+            1 if !tiny => format!("{}_default", what),
+            _ => format!("{}_new {}", what, lim),
+        };
         if decoder {
-            ops.push(format!("dec_new {}", lim));
+            ops.push(ctor(rng, "dec"));
             // build a plausible encoded stream with the reference of what the real encoder does:
             // just feed random bytes with small header-ish values; errors are part of the game
             let n = rng.range(1, 10);
@@ -720,10 +805,16 @@ impl Family for CodecWFamily {
                     ops.push("drain_all".into());
                 }
             }
-            ops.push("finish".into());
+            // `take_iovec` hands the iovec over without the end-of-record check
+            if !tiny && rng.chance(1, 3) {
+                ops.push("take_iovec".into());
+                ops.push("drain_bytes 7".into());
+            } else {
+                ops.push("finish".into());
+            }
             return ops;
         }
-        ops.push(format!("enc_new {}", lim));
+        ops.push(ctor(rng, "enc"));
         let pieces = if soak { if thorough { 400 } else { 60 } } else { rng.range(1, 10) };
         for _ in 0..pieces {
             let len = if soak {
@@ -744,7 +835,14 @@ impl Family for CodecWFamily {
             // short under production limits (tiny limits cover the dense cases)
             let dens = if !tiny && len > 1500 { *rng.pick(&[0u64, 0, 1, 8]) } else { *rng.pick(&[0u64, 0, 1, 8, 64, 200, 256]) };
             let seed = rng.next() >> 16;
-            let m = if soak { *rng.pick(&["c", "c", "c", "b", "a"]) } else { *rng.pick(&["b", "c", "a", "f"]) };
+            let m = if soak {
+                *rng.pick(&["c", "c", "c", "b", "a"])
+            } else if !tiny && rng.chance(1, 3) {
+                // `ZeroCopySink for Encoder` through `dyn` (production encoder only)
+                *rng.pick(&["sb", "sc"])
+            } else {
+                *rng.pick(&["b", "c", "a", "f"])
+            };
             ops.push(format!("feed {} gen:{}:{}:{}", m, len, seed, if soak { dens.min(1) } else { dens }));
             if !soak && rng.chance(1, 4) {
                 let count = rng.range(0, 12) as usize;
